@@ -1,5 +1,6 @@
 pub mod bytes;
 pub mod client;
+pub mod e2e;
 pub mod listener;
 pub mod server;
 
@@ -14,6 +15,7 @@ pub enum Scenario {
     Server(server::ServerScn),
     Listener(listener::ListenerScn),
     Bytes(bytes::BytesScn),
+    E2e(e2e::E2eScn),
 }
 
 impl Scenario {
@@ -24,6 +26,7 @@ impl Scenario {
             Scenario::Server(c) => c.valid(),
             Scenario::Listener(c) => c.valid(),
             Scenario::Bytes(c) => c.valid(),
+            Scenario::E2e(c) => c.valid(),
         }
     }
 }
@@ -34,6 +37,7 @@ pub fn run_scenario(s: &Scenario, tape: Tape) -> RunOutput {
         Scenario::Server(c) => server::run(c, tape, true),
         Scenario::Listener(c) => listener::run(c, tape),
         Scenario::Bytes(c) => bytes::run(c, tape),
+        Scenario::E2e(c) => e2e::run(c, tape),
     }
 }
 
@@ -81,6 +85,19 @@ fn g_bytes_roundtrip(r: &mut Rng) -> Scenario {
 }
 fn g_bytes_adversary(r: &mut Rng) -> Scenario {
     Scenario::Bytes(bytes::gen_adversary(r))
+}
+
+fn g_e2e_general(r: &mut Rng) -> Scenario {
+    Scenario::E2e(e2e::gen(r, e2e::EFocus::General))
+}
+fn g_e2e_cascade(r: &mut Rng) -> Scenario {
+    Scenario::E2e(e2e::gen(r, e2e::EFocus::Cascade))
+}
+fn g_e2e_deadlines(r: &mut Rng) -> Scenario {
+    Scenario::E2e(e2e::gen(r, e2e::EFocus::Deadlines))
+}
+fn g_e2e_trace(r: &mut Rng) -> Scenario {
+    Scenario::E2e(e2e::gen(r, e2e::EFocus::Trace))
 }
 
 fn g_listener(r: &mut Rng) -> Scenario {
@@ -161,9 +178,9 @@ pub fn checks() -> Vec<CheckSpec> {
             "abandonment before first poll / after k polls / at a time / when the request is on the wire / when a reply is queued / when the reply was read, crossed with capacity 1-3, buffer 1-3, stalled sink; preemption inside the guard's Drop (hook H2); per-id sink sequence and the cancel obligation at idle points",
             CLIENT_REAL, CLIENT_STUB, &[]),
         spec("C04", "exploration",
-            vec![gen("server.cancel", 3, g_server_cancel), gen("server.general", 1, g_server_general), gen("server.limit", 1, g_server_limit)],
+            vec![gen("server.cancel", 3, g_server_cancel), gen("server.general", 1, g_server_general), gen("server.limit", 1, g_server_limit), gen("e2e.cascade", 2, g_e2e_cascade)],
             q, t,
-            "cancel positioned before/after handler start, completion, response buffering and write; 1-8 concurrent requests; limit on/off; sink stalls",
+            "service chains of depth 1-3 over mixed real links with the root call abandoned at a time or when the handler at node k starts (cascade rule at the first unstalled idle point); cancel positioned before/after handler start, completion, response buffering and write; 1-8 concurrent requests; limit on/off; sink stalls",
             SERVER_REAL, SERVER_STUB, &[]),
         spec("C05", "exploration",
             vec![gen("client.deadlines", 3, g_client_deadlines), gen("client.general", 1, g_client_general)],
@@ -178,7 +195,7 @@ pub fn checks() -> Vec<CheckSpec> {
             SERVER_REAL, SERVER_STUB,
             &["timer granularity 1 ms modelled as 2 ms slack"]),
         spec("C07", "exploration",
-            vec![gen("bytes.roundtrip", 2, g_bytes_roundtrip), gen("server.general", 1, g_server_general), gen("server.deadlines", 1, g_server_deadlines)],
+            vec![gen("bytes.roundtrip", 2, g_bytes_roundtrip), gen("server.general", 1, g_server_general), gen("server.deadlines", 1, g_server_deadlines), gen("e2e.deadlines", 3, g_e2e_deadlines), gen("e2e.general", 1, g_e2e_general)],
             q / 4, t / 4,
             "request deadlines 0 ms .. 1 h (including already expired at encode time) through JSON and bincode over a SimPipe with virtual latency and through the in-memory transport; the decoded / handler-observed deadline is compared with the caller's deadline and the measured transit time; JSON requests that omit the deadline must get decode time + 10 s",
             &["tarpc::context deadline (de)serialisation, serde_transport, wire types (real)", "BaseChannel / Requests / execute passing the request context to the handler (real)"],
@@ -201,7 +218,7 @@ pub fn checks() -> Vec<CheckSpec> {
             "client: last handle dropped / peer EOF at a random point of every run plus at the end of every run; server: inbound EOF after the script with mixed in-flight work",
             BOTH_REAL, BOTH_STUB, &[]),
         spec("C11", "exploration",
-            vec![gen("client.general", 2, g_client_general), gen("client.abandon", 2, g_client_abandon), gen("server.general", 2, g_server_general), gen("server.cancel", 1, g_server_cancel), gen("server.dups", 1, g_server_dups)],
+            vec![gen("client.general", 2, g_client_general), gen("client.abandon", 2, g_client_abandon), gen("server.general", 2, g_server_general), gen("server.cancel", 1, g_server_cancel), gen("server.dups", 1, g_server_dups), gen("e2e.general", 1, g_e2e_general)],
             q, t,
             "in-flight and timer counts (hook H3) sampled after every dispatch / request-stream poll, compared with an interval model at every sample and at every idle point",
             BOTH_REAL, BOTH_STUB, &[]),
@@ -235,7 +252,7 @@ pub fn checks() -> Vec<CheckSpec> {
             "boundary-valued deadlines (0, 2^36 ms +-1, 100 and 8000 years, u64::MAX s, max nanos) from callers and peers, with no subscriber / fmt subscriber / OpenTelemetry SDK layer",
             BOTH_REAL, BOTH_STUB, &[]),
         spec("C18", "exploration",
-            vec![gen("client.abandon", 2, g_client_abandon), gen("client.general", 1, g_client_general), gen("server.general", 1, g_server_general)],
+            vec![gen("client.abandon", 2, g_client_abandon), gen("client.general", 1, g_client_general), gen("server.general", 1, g_server_general), gen("e2e.trace", 3, g_e2e_trace)],
             q, t,
             "distinct caller-supplied trace ids and sampling decisions per call; wire Request/Cancel contexts and handler contexts compared",
             BOTH_REAL, BOTH_STUB, &[]),
